@@ -576,7 +576,7 @@ func vNthSiblingIndex() (int, []string) {
 //@   modifies anything
 //@   ensures old(n.Type) != html.ElementNode ==> !result
 //@   call Match#1 assert s.name == "is" && arg1 == n
-//@   call Match#2 assert s.name == "not" && arg1 == n
+//@   call Match#2 assert[negates-the-whole-list] s.name == "not" && arg1 == n && len(arg0) == len(s.match) && forall(k, 0, len(s.match), arg0[k] == s.match[k])
 //@   call hasDescendantMatch#1 assert s.name == "has" && arg0 == n
 //@   call hasChildMatch#1 assert s.name == "haschild" && arg0 == n
 
@@ -698,4 +698,75 @@ func vHasDepth() (n int, fails []string) {
 }
 
 //@ bounded vHasDepth :has() with descendant and child arguments on every chain of one to six nested elements with the matching element at each depth (270 selector / document pairs), against the definition
+//@   props C05
+
+// bounded stand-in (C05, ":is()" / ":not()" with a LIST of arguments): `:not(A, B)` matches the elements that match
+// NONE of the arguments and `:is(A, B)` those that match at least one. vSelectorLists takes the 8 elements carrying
+// each subset of the classes a, b, c and every non-empty argument list over .a, .b, .c (15 lists incl. repetitions
+// of length two), and compares p:not(list) and p:is(list) with the definition element by element.
+func vSelectorLists() (n int, fails []string) {
+	doc := "<html><body>"
+	for m := 0; m < 8; m++ {
+		cls := ""
+		for i, c := range []string{"a", "b", "c"} {
+			if m&(1<<i) != 0 {
+				cls += c + " "
+			}
+		}
+		doc += fmt.Sprintf(`<p id="e%d" class="%s"></p>`, m, strings.TrimSpace(cls))
+	}
+	root, err := html.Parse(strings.NewReader(doc + "</body></html>"))
+	if err != nil {
+		return 0, []string{err.Error()}
+	}
+	var lists [][]int
+	for i := 0; i < 3; i++ {
+		lists = append(lists, []int{i})
+		for j := 0; j < 3; j++ {
+			lists = append(lists, []int{i, j})
+		}
+	}
+	lists = append(lists, []int{0, 1, 2}, []int{2, 1, 0}, []int{1, 2, 0})
+	for _, l := range lists {
+		args := ""
+		for k, i := range l {
+			if k > 0 {
+				args += ", "
+			}
+			args += "." + string(rune('a'+i))
+		}
+		for _, neg := range []bool{false, true} {
+			sel := "p:is(" + args + ")"
+			if neg {
+				sel = "p:not(" + args + ")"
+			}
+			g, err := ParseGroup(sel)
+			if err != nil {
+				fails = append(fails, sel+": "+err.Error())
+				continue
+			}
+			got := map[string]bool{}
+			for _, e := range MatchAll(root, g) {
+				for _, a := range e.Attr {
+					if a.Key == "id" {
+						got[a.Val] = true
+					}
+				}
+			}
+			for m := 0; m < 8; m++ {
+				n++
+				some := false
+				for _, i := range l {
+					some = some || m&(1<<i) != 0
+				}
+				if want := some != neg; got[fmt.Sprintf("e%d", m)] != want && len(fails) < 6 {
+					fails = append(fails, fmt.Sprintf("%s on <p class=%03b (cba)>: matched %v, expected %v", sel, m, !want, want))
+				}
+			}
+		}
+	}
+	return n, fails
+}
+
+//@ bounded vSelectorLists :is() and :not() with every argument list of one to three class selectors over a, b, c (15 lists) on the 8 elements carrying each subset of the classes (240 selector / element pairs), against the definition
 //@   props C05
